@@ -105,7 +105,7 @@ def finish(run, t0, facts_meta, explanation, assumptions, write=True):
         print('VIOLATION property=%s replay=%s' % (v['property'], rp))
         print('  %s %s: %s (%s, key=%s, configs=%s)' % (v['rule'], v['loc'], v['message'], v['function'], v['key'], ','.join(v['configs'])))
         for step in v['path'][:12]: print('      ' + str(step))
-        if code == 0: code = 1
+        code = 1        # a definite violation takes precedence over analysis-broken rules (their lines are printed as well)
     per_rule = collections.Counter()
     for (r, c), n in run.counts.items(): per_rule[r] += n
     samples = []
